@@ -20,6 +20,7 @@ ALLOWED_AXIOMS = {
     'functional_extensionality_dep', 'FunctionalExtensionality.functional_extensionality_dep',
     'Eqdep.Eq_rect_eq.eq_rect_eq', 'eq_rect_eq', 'JMeq_eq', 'JMeq.JMeq_eq',
     'classic', 'Classical_Prop.classic', 'proof_irrelevance',
+    'ClassicalDedekindReals.sig_not_dec', 'ClassicalDedekindReals.sig_forall_dec',
 }
 
 ERR_TAG = -999
